@@ -549,6 +549,75 @@ theorem setop_result_wellformed (E : Env) (ety : Ty) (k : SetOpKind) (hR : (setR
     setOpType E (setArgs ety sets) = .ok (.set ety) :=
   ⟨setOp_result_inv E ety k hR s1 s2, setOpType_same E ety hd sets hne hu⟩
 
+/-! ## index; slice of a tuple; zipmap and merge result types -/
+
+/-- **index(list, i)**: the member at `i` when `0 ≤ i < len`, otherwise the error
+"invalid index" — decided by the nested `hasindex` call, which goes through the
+whole call protocol -/
+theorem index_list (e : Ty) (vs : List Payload) (i : Nat) (hi : (i : Int) ≤ maxInt)
+    (hm : Payload.containsMarkedL vs = false) (retTy : Ty) :
+    indexImpl [⟨.list e, .seq vs⟩, intVal i] retTy =
+      (match vs[i]? with
+       | some p => .ok ⟨e, p⟩
+       | none => .err "invalid index") ∧
+    (Fn.call hasIndexSpec hasIndexType hasIndexImpl [⟨.list e, .seq vs⟩, intVal i]).1 =
+      .ok (boolVal (decide (i < vs.length))) :=
+  ⟨indexImpl_list e vs i hi hm retTy, hasIndex_call_list e vs i hi hm⟩
+
+/-- the key rules of `index`'s `Type` callback: number keys for lists and tuples,
+string keys for maps (a key of unknown type is let through); the result type is
+the element type, for a tuple the type at the (whole, in-range) key -/
+theorem index_type_rules (e : Ty) (ts : List Ty) (p : Payload) (key : Value) (x : Num) :
+    indexType [⟨.list e, p⟩, key] =
+      (if !key.ty.isNumber && !key.ty.isDyn then .err "key for list must be number" else .ok e) ∧
+    indexType [⟨.map e, p⟩, key] =
+      (if !key.ty.isString && !key.ty.isDyn then .err "key for map must be string" else .ok e) ∧
+    indexType [⟨.tuple ts, p⟩, numVal x] =
+      (match Gocty.int64Exact x with
+       | none => .err "invalid key for tuple"
+       | some i =>
+         if i ≥ ts.length || i < 0 then .err "key must be between 0 and len inclusive"
+         else (match ts[i.toNat]? with
+           | some t => .ok t
+           | none => oob)) :=
+  indexType_rules e ts p key x
+
+/-- **slice(tuple, a, b)**: the tuple of the members at positions `a ≤ p < b`, typed
+by the same slice of the element types, which is the type the `Type` callback
+predicts; outside `0 ≤ a ≤ b ≤ len` both callbacks fail -/
+theorem slice_tuple (E : Env) (ts : List Ty) (vs : List Payload) (a b : Num) (hl : ts.length = vs.length)
+    (retTy : Ty) (hnd : retTy.isDyn = false) :
+    (∀ s t, SliceArgs ts.length a b s t →
+      sliceImpl E [⟨.tuple ts, .seq vs⟩, numVal a, numVal b] (.tuple (Spec.slice ts s.toNat t.toNat)) =
+          .ok ⟨.tuple (Spec.slice ts s.toNat t.toNat), .seq (Spec.slice vs s.toNat t.toNat)⟩ ∧
+      sliceType [⟨.tuple ts, .seq vs⟩, numVal a, numVal b] = .ok (.tuple (Spec.slice ts s.toNat t.toNat))) ∧
+    ((¬ ∃ s t, SliceArgs ts.length a b s t) →
+      Fails (sliceImpl E [⟨.tuple ts, .seq vs⟩, numVal a, numVal b] retTy) ∧
+      Fails (sliceType [⟨.tuple ts, .seq vs⟩, numVal a, numVal b])) :=
+  ⟨fun s t h => sliceImpl_tuple_ok E ts vs a b s t hl h, fun h => sliceImpl_tuple_err E ts vs a b retTy hnd h⟩
+
+/-- **zipmap(keys, tuple)**: the object binding every key to the value at its
+position (last binding wins), and the `Type` callback predicts the object type
+binding every key to the TYPE at its position -/
+theorem zipmap_tuple (E : Env) (ks : List String) (ts : List Ty) (vs : List Payload)
+    (hl : ks.length = vs.length) (htv : ts.length = vs.length) (hlen : (vs.length : Int) ≤ maxInt)
+    (ns : List String) (ats : List Ty) (os : List Bool) :
+    (∃ out, zipmapImpl E [⟨.list .string, .seq (ks.map Payload.s)⟩, ⟨.tuple ts, .seq vs⟩] (.object ns ats os) =
+        .ok (Gocty.objectVal (out.map (·.1)) (out.map (·.2))) ∧
+      Spec.IsMapOf (ks.zip (zipTV ts vs)) out) ∧
+    (∃ atys, zipmapType E [⟨.list .string, .seq (ks.map Payload.s)⟩, ⟨.tuple ts, .seq vs⟩] =
+        .ok (.object (atys.map (·.1)) (atys.map (·.2)) (atys.map fun _ => false)) ∧
+      Spec.IsMapOf (ks.zip ts) atys) :=
+  ⟨zipmapImpl_tuple E ks ts vs hl htv hlen ns ats os, zipmapType_tuple E ks ts (.seq vs) (by omega)⟩
+
+/-- **result type of `merge`**: when all arguments have one map or object type, that
+type; with no arguments the empty object type -/
+theorem merge_type (T : Ty) (hT : (isMapTy T || isObjectTy T) = true) (heq : T.equals T = true)
+    (hnd : T.equals .dyn = false) (args : List Value) (hne : args ≠ [])
+    (hargs : ∀ a ∈ args, a.ty = T ∧ (a.unmark.isNull = true ∨ ∃ ks, elemKeys a.unmark = .ok ks)) :
+    mergeType args = .ok T ∧ mergeType [] = .ok (.object [] [] []) :=
+  ⟨mergeType_same T hT heq hnd args hne hargs, rfl⟩
+
 /-! ## Non-vacuity: the hypotheses above are satisfiable by non-trivial values -/
 
 example : Gocty.int64Exact (Num.ofInt (-7)) = some (-7) := by decide
